@@ -26,6 +26,9 @@ def fontSizeBreak : List (List Char) :=
   ["xx-small", "x-small", "small", "medium", "large", "x-large", "xx-large", "smaller", "larger", "inherit",
    "initial", "unset"].map S
 
+def fontSizeKws : List (List Char) :=
+  ["xx-small", "x-small", "small", "medium", "large", "x-large", "xx-large", "smaller", "larger"].map S
+
 /-- index of the first comma at or behind position 2 -/
 def firstCommaFrom2 (vs : List Tok) : Option Nat := ((vs.drop 2).findIdx? isComma).map (· + 2)
 
@@ -37,7 +40,11 @@ def famLoop (vs : List Tok) : Nat → Nat
     let prev := vs.getD i default
     if isSlash prev then i + 1
     else if cur.tt != .ident && cur.tt != .string then i + 1
-    else if fontSizeBreak.contains (identOf cur) then i + 1
+    else if fontSizeBreak.contains (identOf cur) then
+      -- cf0d7b9: size (and line-height) in front: the keyword is the first word of a family name
+      if 0 < i && isSlash (vs.getD (i - 1) default) then i
+      else if isLengthPercentage prev || fontSizeKws.contains (identOf prev) then i
+      else i + 1
     else famLoop vs i
 
 /-- rewrite of one token in front of the font size: `none` = removed -/
